@@ -15,6 +15,7 @@ func init() {
 		Explain: "Decides RPC gating for every request sequence as shape facts of the dispatcher: every handler call in AgentIPC.handleRequest except the handshake is unreachable once the edges establishing 'version != 0' (and 'command == handshake') are cut, and every handler call except handshake and auth is unreachable once the edges establishing 'no auth key configured', 'didAuth', 'command == auth' and 'command == handshake' are cut; each call sits in the switch arm of its own command constant (the command is never written); handlers are called from nowhere else and the dispatcher only from the client loop; IPCClient.version is written only by the handshake handler behind version-in-range ∧ not-yet-set, didAuth only by the auth handler behind key equality; both reject paths send a header carrying the request's sequence number and a non-empty constant error before returning; the dispatcher itself touches no agent state.",
 		Run:     runC24,
 		Mutants: []Mutant{
+			{Name: "auth-key-normalised", File: "cmd/serf/command/agent/ipc.go", Func: "func NewAgentIPC(", Old: "authKey:                 authKey,", New: "authKey:                 strings.TrimSpace(authKey),", Expect: "R6"},
 			{Name: "gate-discards-body", File: "cmd/serf/command/agent/ipc.go", Func: "func (i *AgentIPC) handleRequest(", Old: "\t\trespHeader := responseHeader{Seq: seq, Error: authRequired}\n\t\tclient.Send(&respHeader, nil)\n\t\treturn nil\n", New: "\t\trespHeader := responseHeader{Seq: seq, Error: authRequired}\n\t\tclient.Send(&respHeader, nil)\n\t\tvar skipped any\n\t\t_ = client.dec.Decode(&skipped)\n\t\treturn nil\n", Expect: "R5"},
 			{Name: "rename-locals", Equivalent: true, Regexp: true, File: "cmd/serf/command/agent/ipc.go", Func: "func (i *AgentIPC) handleHandshake(", Old: `\b(req|resp)\b`, New: "${1}Renamed"},
 			{Name: "stats-before-auth", File: "cmd/serf/command/agent/ipc.go", Func: "func (i *AgentIPC) handleRequest(", Old: "\t// Ensure the client has authenticated after the handshake if necessary\n", New: "\tif command == statsCommand {\n\t\treturn i.handleStats(client, seq)\n\t}\n", Expect: "R1"},
@@ -31,6 +32,7 @@ func init() {
 		Explain: "Decides reply correlation and stream well-formedness structurally: every responseHeader built anywhere in the agent package takes Seq from the handler's seq parameter (which at every call site is the request header's Seq) or from a stream's seq field (written only by its constructor from the seq argument); an event stream enqueues an event only behind some filter's Invoke(e)==true, non-blockingly, and has one consumer goroutine; a query stream emits an ack/response record only for a value actually received from the query's channels (receives from closable channels are comma-ok with the not-ok edge leaving the case without emitting), builds records only from received values, and sends the completion record only from the timer case, after which it returns.",
 		Run:     runC25,
 		Mutants: []Mutant{
+			{Name: "handler-list-reused", File: "cmd/serf/command/agent/agent.go", Func: "func (a *Agent) RegisterEventHandler(", Old: "\ta.eventHandlerList = nil\n", New: "\ta.eventHandlerList = a.eventHandlerList[:0]\n", Expect: "R8"},
 			{Name: "flush-outside-write-lock", File: "cmd/serf/command/agent/ipc.go", Func: "func (c *IPCClient) Send(", Old: "\tif err := c.writer.Flush(); err != nil {\n\t\treturn err\n\t}\n\n\treturn nil\n", New: "\tc.writeLock.Unlock()\n\terr := c.writer.Flush()\n\tc.writeLock.Lock()\n\treturn err\n", Expect: "R7"},
 			{Name: "expired-query-not-streamed", File: "cmd/serf/command/agent/ipc_event_stream.go", Func: "func (es *eventStream) sendQuery(", Old: "\tid := es.client.RegisterQuery(q)\n", New: "\tid := es.client.RegisterQuery(q)\n\tif id == 0 {\n\t\treturn nil\n\t}\n", Expect: "R6|sendQuery:always-sends"},
 			{Name: "request-header-reused", File: "cmd/serf/command/agent/ipc.go", Func: "func (i *AgentIPC) handleClient(", Old: "\tfor {\n", New: "\tvar reqHeader requestHeader\n\tfor {\n", Old2: "\t\tvar reqHeader requestHeader\n", New2: "", Expect: "R5"},
@@ -61,6 +63,19 @@ func ipcHandlerCalls(disp *ssa.Function) []ssa.Instruction {
 }
 
 func runC24(c *an.Ctx) {
+	c.Rule("R6 the key the gate compares with is the configured key as given: AgentIPC.authKey is written only at construction, with the constructor's parameter unchanged")
+	{
+		nK := 0
+		for _, a := range an.FieldAccesses(c.P.FuncsIn(agent), "AgentIPC", "authKey") {
+			if a.Kind != "store" {
+				continue
+			}
+			nK++
+			_, isParam := an.Strip(a.Val).(*ssa.Parameter)
+			c.Add(a.Init && isParam && an.FuncName(a.Fn) == "NewAgentIPC", "R6", "authKey-writer:"+an.FuncName(a.Fn), a.Instr, "authKey is the constructor's key parameter, stored unmodified at construction (stores "+short(an.Path(a.Val))+")", "who-may-write + value provenance")
+		}
+		c.Floor("R6", "stores of AgentIPC.authKey", nK, 1)
+	}
 	c.Rule("R5 the gate itself reads nothing from the connection: only the command handlers decode (their own body); a rejection must not consume bytes of the next request")
 	if hr := am(c, "R5", "AgentIPC", "handleRequest"); hr != nil {
 		nDec := 0
@@ -91,11 +106,8 @@ func runC24(c *an.Ctx) {
 	hs := cv(c, agent, "handshakeCommand")
 	au := cv(c, agent, "authCommand")
 	cmd := "$2.Command"
-	gate1 := append(an.EdgesImplying(disp, an.Cmp{L: "$1.version", Op: "!=", R: "c:0"}), an.EdgesImplying(disp, an.Cmp{L: cmd, Op: "==", R: hs})...)
-	gate2 := append([]an.Edge{}, an.EdgesImplying(disp, an.Cmp{L: "$0.authKey", Op: "==", R: `c:""`})...)
-	gate2 = append(gate2, an.EdgesImplying(disp, an.Cmp{L: "$1.didAuth", Op: "==", R: "c:true"})...)
-	gate2 = append(gate2, an.EdgesImplying(disp, an.Cmp{L: cmd, Op: "==", R: au})...)
-	gate2 = append(gate2, an.EdgesImplying(disp, an.Cmp{L: cmd, Op: "==", R: hs})...)
+	gate1 := []an.Cmp{{L: "$1.version", Op: "!=", R: "c:0"}, {L: cmd, Op: "==", R: hs}}
+	gate2 := []an.Cmp{{L: "$0.authKey", Op: "==", R: `c:""`}, {L: "$1.didAuth", Op: "==", R: "c:true"}, {L: cmd, Op: "==", R: au}, {L: cmd, Op: "==", R: hs}}
 	handlers := map[*ssa.Function]bool{}
 	for _, call := range calls {
 		f := an.StaticCallee(an.CallOf(call))
@@ -121,12 +133,12 @@ func runC24(c *an.Ctx) {
 			c.Add(isHS, "R1", "dispatch:handshake-arm", call, "the handshake handler runs only for the handshake command", "necessary-edge enumeration")
 			continue
 		}
-		c.Add(!isHS && an.Guarded(disp, call, gate1), "R1", "gate:handshake-first:"+name, call, name+" is unreachable without passing 'version != 0' (a completed handshake)", "reach/cut over {version != 0, command == handshake}")
+		c.Add(!isHS && an.GuardedAny(disp, call, gate1...), "R1", "gate:handshake-first:"+name, call, name+" is unreachable without passing 'version != 0' (a completed handshake)", "reach/cut over {version != 0, command == handshake}")
 		if name == "handleAuth" {
 			c.Add(isAU, "R1", "dispatch:auth-arm", call, "the auth handler runs only for the auth command", "necessary-edge enumeration")
 			continue
 		}
-		c.Add(!isAU && an.Guarded(disp, call, gate2), "R1", "gate:auth-first:"+name, call, name+" is unreachable without passing 'no key configured' or 'didAuth'", "reach/cut over {authKey == \"\", didAuth, command == auth, command == handshake}")
+		c.Add(!isAU && an.GuardedAny(disp, call, gate2...), "R1", "gate:auth-first:"+name, call, name+" is unreachable without passing 'no key configured' or 'didAuth'", "reach/cut over {authKey == \"\", didAuth, command == auth, command == handshake}")
 	}
 	// the command and the gate state are not written by the dispatcher
 	an.Instrs(disp, func(in ssa.Instruction) {
@@ -308,7 +320,52 @@ func seqOK(c *an.Ctx, d *discharger, fn *ssa.Function, v ssa.Value, depth int) b
 	return false
 }
 
+// handlerListFresh: the agent's handler list is only replaced by a fresh slice (shared by C25 and C27).
+func handlerListFresh(c *an.Ctx, rule string) {
+	c.Rule(rule + " the agent's handler list is read as a snapshot outside the lock by the event loop, so it is only ever replaced by a fresh slice (nil, then appends): never re-sliced or written element-wise in place")
+	{
+		nL := 0
+		for _, f := range c.P.FuncsIn(agent) {
+			an.Instrs(f, func(in ssa.Instruction) {
+				switch x := in.(type) {
+				case *ssa.Slice:
+					if t, fld, ok := an.LoadedField(x.X); ok && t == "Agent" && fld == "eventHandlerList" {
+						c.Add(false, rule, "handler-list:resliced:"+an.FuncName(f), in, "the handler list is re-sliced in place ("+short(an.Path(x))+"): an event loop iterating its snapshot can see handlers twice or not at all", "slice enumeration")
+					}
+				case *ssa.Store:
+					if t, fld, ok := an.FieldOf(x.Addr); ok && t == "Agent" && fld == "eventHandlerList" {
+						nL++
+						p := an.Path(x.Val)
+						ok := an.IsNilConst(x.Val) || strings.HasPrefix(p, "append($0.eventHandlerList,") || strings.HasPrefix(p, "append(c:nil")
+						c.Add(ok, rule, "handler-list:fresh:"+an.FuncName(f), in, "the handler list is reset to nil and rebuilt by appends (stores "+short(p)+")", "store value shape")
+					}
+				}
+			})
+		}
+		c.Floor(rule, "stores of Agent.eventHandlerList", nL, 4)
+		// and each rebuild starts from nil in the same function
+		for _, name := range []string{"RegisterEventHandler", "DeregisterEventHandler"} {
+			if f := am(c, rule, "Agent", name); f != nil {
+				var reset ssa.Instruction
+				for _, st := range an.StoresTo(f, ".eventHandlerList") {
+					if an.IsNilConst(st.Val) {
+						reset = st
+					}
+				}
+				okAll := reset != nil
+				for _, st := range an.StoresTo(f, ".eventHandlerList") {
+					if !an.IsNilConst(st.Val) && (reset == nil || !an.Dominates(reset, st)) {
+						okAll = false
+					}
+				}
+				c.Add(okAll, rule, "handler-list:rebuilt-from-nil:"+name, f, name+" resets the list to nil before it appends the handlers (the old backing array is never reused)", "dominance")
+			}
+		}
+	}
+}
+
 func runC25(c *an.Ctx) {
+	handlerListFresh(c, "R8")
 	c.Rule("R7 a record is written atomically: every Encode on the connection's encoder and the Flush of its writer happen with writeLock held, the Flush in the section of the Encodes (two senders on one connection cannot interleave or duplicate bytes)")
 	{
 		locks7 := an.NewLocks(c.P)
@@ -421,7 +478,7 @@ func runC25(c *an.Ctx) {
 			c.Add(ok, "R1", "seq:"+an.FuncName(fn), st, "the reply header's Seq is the request's (or the stream's) sequence number (got "+an.Path(st.Val)+")", "value provenance through parameters and constructor-only fields")
 		}
 	}
-	c.Floor("R1", "responseHeader literals in the agent package", n, 29)
+	c.Floor("R1", "responseHeader literals in the agent package", n, 20)
 
 	// R2
 	if he := am(c, "R2", "eventStream", "HandleEvent"); he != nil {
